@@ -1202,6 +1202,11 @@ class SQLModel:
         if using is None:
             using = OrderedSet(project_node.column_names)
         subops = {k: op for (k, op) in project_node.ops.items() if k in using}
+        if (len(subops) < 1) and (len(project_node.group_by) < 1) and (len(project_node.ops) > 0):
+            # every aggregate was pruned: keep one, an un-grouped project must still return exactly one row
+            k0 = list(project_node.ops.keys())[0]
+            subops = {k0: project_node.ops[k0]}
+            using = OrderedSet(list(using) + [k0])
         subusing = project_node.columns_used_from_sources(using=using)[0]
         terms = {ci: self.expr_to_sql(oi) for (ci, oi) in subops.items()}
         terms.update({g: None for g in project_node.group_by})
@@ -2043,6 +2048,9 @@ class SQLModel:
             if columns is None:
                 columns = [k for k in terms.keys()]
             terms_strs = [self.enc_term_(k, terms=terms) for k in columns]
+            if len(terms_strs) < 1:
+                # nothing was requested of this step: still emit its own terms, an aggregation must stay one
+                terms_strs = [self.enc_term_(k, terms=terms) for k in terms.keys()]
             if len(terms_strs) < 1:
                 terms_strs = ["*"]
         sql_start = "SELECT"
